@@ -167,6 +167,8 @@ def expected_rows(start_sig, seq, names, start_rows):
         elif k == 'RenM':
             rows[mu['nm']] = rows.pop(mu['om'])
             sig[mu['nm']] = sig.pop(mu['om'])
+            if mu.get('dbtable') not in (None, NONE):
+                sig[mu['nm']]['table'] = mu['dbtable']
         elif k == 'DelM':
             rows.pop(mu['m'], None)
             sig.pop(mu['m'], None)
